@@ -19,7 +19,7 @@ var emitCall = regexp.MustCompile(`emit\("([^"]*)", (\w+)\)`)
 // ForEgo turns a program written for Eval into the file handed to the real
 // binary: every emit("tag", v) becomes fmt.Printf("OUT|tag|%T|%v\n", v, v).
 func ForEgo(src string) string {
-	out := emitCall.ReplaceAllString(src, `fmt.Printf("OUT|$1|%T|%v\n", $2, $2)`)
+	out := emitCall.ReplaceAllString(Alone(src), `fmt.Printf("OUT|$1|%T|%v\n", $2, $2)`)
 
 	return strings.Replace(out, "package main\n", "package main\nimport \"fmt\"\n", 1)
 }
@@ -58,6 +58,7 @@ func RunEgo(src string, mode int, opt int) (res Result, infra error) {
 
 	cmd := exec.CommandContext(ctx, ego, "run", "--types", ModeNames[mode], "-o", strconv.Itoa(opt), file)
 	cmd.Dir = dir
+	cmd.Env = append(os.Environ(), "TMPDIR="+dir)
 
 	var stdout, stderr bytes.Buffer
 
@@ -97,34 +98,46 @@ func RunEgo(src string, mode int, opt int) (res Result, infra error) {
 
 var emitTag = regexp.MustCompile(`emit\("`)
 
-const mainHead = "package main\nfunc main() {\n"
+const pkgHead = "package main\n"
+const mainHead = "func main() {\n"
 
-// Pack joins programs written for Eval (each "package main / func main()")
-// into one: program i becomes func item_i, its tags get the prefix "i.", and
-// the new main calls every item inside its own try block so that an error
-// ending one item is recorded ("i.!") and the next item still runs.
+// ItemToken is replaced by the item number when programs are packed (and by 0
+// when a program runs alone), so that helper functions and types declared
+// before main get distinct names.
+const ItemToken = "ITEM"
+
+// Alone renders a program for running on its own.
+func Alone(src string) string { return strings.ReplaceAll(src, ItemToken, "0") }
+
+// Pack joins programs written for Eval into one. A program has the shape
+// "package main", optional helper declarations (whose names contain
+// ItemToken), "func main() {", body, "}". Program i becomes func item_i plus
+// its helpers, its tags get the prefix "i.", and the new main calls every
+// item inside its own try block so that an error ending one item is recorded
+// ("i.!") and the next item still runs.
 func Pack(progs []string) (string, error) {
-	var b strings.Builder
+	var b, calls strings.Builder
 
-	b.WriteString("package main\n")
+	b.WriteString(pkgHead)
 
 	for i, p := range progs {
-		if !strings.HasPrefix(p, mainHead) || !strings.HasSuffix(p, "}\n") {
+		at := strings.Index(p, mainHead)
+		if !strings.HasPrefix(p, pkgHead) || at < 0 || !strings.HasSuffix(p, "}\n") {
 			return "", fmt.Errorf("Pack: program %d is not in the canonical shape", i)
 		}
 
-		body := p[len(mainHead) : len(p)-2]
-		body = emitTag.ReplaceAllString(body, fmt.Sprintf(`emit("%d.`, i))
-		fmt.Fprintf(&b, "func item_%d() {\n%s}\n", i, body)
+		n := strconv.Itoa(i)
+		helpers := strings.ReplaceAll(p[len(pkgHead):at], ItemToken, n)
+		body := strings.ReplaceAll(p[at+len(mainHead):len(p)-2], ItemToken, n)
+
+		helpers = emitTag.ReplaceAllString(helpers, `emit("`+n+`.`)
+		body = emitTag.ReplaceAllString(body, `emit("`+n+`.`)
+
+		fmt.Fprintf(&b, "%sfunc item_%d() {\n%s}\n", helpers, i, body)
+		fmt.Fprintf(&calls, "    try {\n        item_%d()\n        fmt.Printf(\"OUT|%d.$|done|0\\n\")\n    } catch (e) {\n        fmt.Printf(\"OUT|%d.!|error|%%v\\n\", e)\n    }\n", i, i, i)
 	}
 
-	b.WriteString("func main() {\n")
-
-	for i := range progs {
-		fmt.Fprintf(&b, "    try {\n        item_%d()\n        fmt.Printf(\"OUT|%d.$|done|0\\n\")\n    } catch (e) {\n        fmt.Printf(\"OUT|%d.!|error|%%v\\n\", e)\n    }\n", i, i, i)
-	}
-
-	b.WriteString("}\n")
+	b.WriteString(mainHead + calls.String() + "}\n")
 
 	return b.String(), nil
 }
